@@ -63,3 +63,30 @@ func VerifQuicState(t *QuicTransport) (closed bool, c any, call any) {
 	}
 	return t.closed, c, call
 }
+
+// VerifReuseState reads the transport's closed flag and its two connection sets under its lock.
+func VerifReuseState(t *ReuseConnTransport) (closed bool, conns, idle []any) {
+	t.m.Lock()
+	defer t.m.Unlock()
+	for c := range t.conns {
+		conns = append(conns, c)
+	}
+	for c := range t.idleConns {
+		idle = append(idle, c)
+	}
+	return t.closed, conns, idle
+}
+
+// VerifRcState reads a reusable connection's flags under its lock.
+func VerifRcState(x any) (serving, closed bool) {
+	rc := x.(*reusableConn)
+	rc.m.Lock()
+	defer rc.m.Unlock()
+	return rc.serving, rc.closed
+}
+
+// VerifFireIdleTimer runs the idle timer's function of a reusable connection.
+func VerifFireIdleTimer(x any) { x.(*reusableConn).closeIfIdle() }
+
+// VerifRcConn returns the net.Conn of a reusable connection.
+func VerifRcConn(x any) net.Conn { return x.(*reusableConn).c }
